@@ -276,10 +276,12 @@ func (t CollectionPath) Of(i Item) Item {
 			return nil
 		})
 	}
-	OnObject(i, func(o *Object) error {
-		it = t.ofObject(o)
-		return nil
-	})
+	if OfObject.Contains(t) {
+		OnObject(i, func(o *Object) error {
+			it = t.ofObject(o)
+			return nil
+		})
+	}
 	return it
 }
 
